@@ -70,6 +70,17 @@ func (c *concurrencyOperator) Next(ctx context.Context) ([]model.StepVector, err
 
 func (c *concurrencyOperator) pull(ctx context.Context) {
 	defer close(c.buffer)
+	// The operators below run on this goroutine: a panic raised by one of them (or by
+	// a storage callback) must fail the query instead of terminating the process.
+	defer func() {
+		if e := recover(); e != nil {
+			err, ok := e.(error)
+			if !ok {
+				err = fmt.Errorf("%v", e)
+			}
+			c.buffer <- maybeStepVector{err: fmt.Errorf("unexpected error: %w", err)}
+		}
+	}()
 
 	for {
 		select {
